@@ -55,7 +55,7 @@ func props() map[string]*propCfg {
 			Rule: "generated dependency graphs without substitution (structured corpora first: all digraphs over <= 3 pointer-wired components, ring rotations; then random graphs); K schedules each. Non-trivial = an early reference was produced (a cycle was entered) or the program has a point whose only candidate is its holder; distinct = distinct (program shape, registry path signature)."},
 		"C06": {ID: "C06", Engine: "startsim", Level: "exploration", Families: wire, QProgs: 400, QK: 8, TProgs: 480, TK: 48,
 			Rule: "generated provider/consumer populations; K schedules each; non-trivial = some point has >= 2 compatible candidates; distinct = distinct (program shape, registry path signature)."},
-		"C07": {ID: "C07", Engine: "startsim", Level: "exploration", Families: []famShare{{gen.FamByName, 0.6}, {gen.FamWire, 0.4}}, QProgs: 400, QK: 8, TProgs: 480, TK: 48,
+		"C07": {ID: "C07", Engine: "startsim", Level: "exploration", Families: []famShare{{gen.FamByName, 0.55}, {gen.FamWire, 0.35}, {gen.FamWrapName, 0.1}}, QProgs: 400, QK: 8, TProgs: 480, TK: 48,
 			Rule: "generated programs with by-name points (custom names, default names, absent names, names of incompatible type, optional and required, rare duplicate registrations); K schedules each; non-trivial = the program has a by-name point; distinct = distinct (program shape, registry path signature)."},
 		"C08": {ID: "C08", Engine: "startsim", Level: "exploration", Families: wire, QProgs: 400, QK: 8, TProgs: 480, TK: 48,
 			Rule: "generated populations with qualifier / Primary / naming attributes and holders mixing qualified, unqualified, optional and required points; K schedules each; non-trivial = some point has >= 2 candidates; distinct = distinct (program shape, registry path signature)."},
